@@ -306,7 +306,7 @@ func TestVerifC24Wire(t *testing.T) {
 			})
 		}
 
-		cache := snapcache.New(snapcache.Config{MaxBatchSize: maxBatch, WakeUpInterval: 20 * time.Millisecond, Name: "c24wire"})
+		cache := snapcache.New(snapcache.Config{MaxBatchSize: maxBatch, WakeUpInterval: 1000 * time.Hour, Name: "c24wire"})
 		cacheCtx, cacheCancel := context.WithCancel(context.Background())
 		cache.Start(cacheCtx)
 		server := syncserver.New(map[syncproto.SyncerType]syncserver.BreadcrumbProvider{syncproto.SyncerTypeFelix: cache}, cfg)
@@ -321,6 +321,19 @@ func TestVerifC24Wire(t *testing.T) {
 			plan   clientPlan
 		}
 		var clients []*running
+		// pushTick sends the next tick (alternating set / delete of the tick key) into the cache.
+		tickPos, tickRev, tickN := stream.lastPos, stream.lastRev, 0
+		pushTick := func() {
+			tickPos++
+			tickRev++
+			u := api.Update{KVPair: model.KVPair{Key: c24Keys[c24TickIdx], Revision: strconv.Itoa(tickRev)}, UpdateType: api.UpdateTypeKVDeleted}
+			if tickN%2 == 0 {
+				u.Value = c24Value(c24TickIdx, tickPos, tickRev)
+				u.UpdateType = api.UpdateTypeKVNew
+			}
+			tickN++
+			cache.OnUpdates([]api.Update{u})
+		}
 		teardown := func() {
 			done := make(chan struct{})
 			go func() {
@@ -331,7 +344,20 @@ func TestVerifC24Wire(t *testing.T) {
 					r.client.Finished.Wait()
 				}
 				serverCancel()
-				server.Finished.Wait()
+				// Per-connection goroutines blocked in Breadcrumb.Next only notice the cancelled
+				// context when the cache broadcasts; the cache's wake-up ticker is set to (effectively)
+				// never because the cache cannot stop it, so make it publish crumbs instead.
+				fin := make(chan struct{})
+				go func() { server.Finished.Wait(); close(fin) }()
+			wake:
+				for {
+					select {
+					case <-fin:
+						break wake
+					case <-time.After(time.Millisecond):
+						pushTick()
+					}
+				}
 				cacheCancel()
 				<-cache.Done
 				close(done)
@@ -393,8 +419,7 @@ func TestVerifC24Wire(t *testing.T) {
 			}
 			return true
 		}
-		tickPos, tickRev := stream.lastPos, stream.lastRev
-		for start, k := time.Now(), 0; !allTicked(); k++ {
+		for start := time.Now(); !allTicked(); {
 			if time.Since(start) > c24Deadline {
 				var states []string
 				for _, r := range clients {
@@ -405,14 +430,7 @@ func TestVerifC24Wire(t *testing.T) {
 				c24Inconclusive(fmt.Sprintf("C24 wire: not every client received a tick within %v\nstream:\n  %s\n%s",
 					c24Deadline, strings.Join(history, "\n  "), strings.Join(states, "\n")))
 			}
-			tickPos++
-			tickRev++
-			u := api.Update{KVPair: model.KVPair{Key: c24Keys[c24TickIdx], Revision: strconv.Itoa(tickRev)}, UpdateType: api.UpdateTypeKVDeleted}
-			if k%2 == 0 {
-				u.Value = c24Value(c24TickIdx, tickPos, tickRev)
-				u.UpdateType = api.UpdateTypeKVNew
-			}
-			cache.OnUpdates([]api.Update{u})
+			pushTick()
 			for i := 0; i < 20 && !allTicked(); i++ {
 				time.Sleep(250 * time.Microsecond)
 			}
